@@ -125,6 +125,17 @@ def gen_ringy(ch):
     return dict(table=RTM.table_for(ch, w["truth"], "fit"), smiles=w["smiles"], truth=w["truth"], source="generated")
 
 
+def gen_digit_placement(ch):
+    """small ring-rich molecules around atoms that can carry 5-6 bonds, spelled with ring digits before, between and
+    after the branches of an atom (accepted, although OpenSMILES puts ring bonds first)"""
+    m = GM.gen_molecule(ch, max_atoms=10, stereo=60, brackets=5, aromatic=0, fragments=3, rings=8, hubs=True)
+    w = GM.write(m, ch, digit_after_branch=45)
+    if w is None:
+        return None
+    return dict(table=RTM.table_for(ch, w["truth"], "fit"), smiles=w["smiles"], truth=w["truth"], source="generated")
+
+
 def shard(ctx):
     ctx.drive("main", gen_case, ctx.n(2000, 30000), max_bytes=800)
     ctx.drive("ringy", gen_ringy, ctx.n(1500, 25000), max_bytes=400)
+    ctx.drive("digit_placement", gen_digit_placement, ctx.n(1500, 20000), max_bytes=500)
